@@ -173,11 +173,57 @@ Definition qcorr (boxes : list box) (t : tree) (q : query) : bool :=
       end
   end.
 
+(* the invariant (OctreeProofs.inv) as a test on the implementation's own tree: every element in or
+   below a cell has a well-formed box inside the cell's box; and the tree holds exactly the input
+   elements, each once, with its own box *)
+Definition wf_boxb (b : box) : bool :=
+  (px (bmin b) <=? px (bmax b)) && (py (bmin b) <=? py (bmax b)) && (pz (bmin b) <=? pz (bmax b)).
+Fixpoint invb (t : tree) : bool :=
+  match t with
+  | Node b els ch =>
+      forallb (fun e => wf_boxb (e_box e) && box_subb (e_box e) b) (tree_elems t) &&
+      (fix all (l : list tree) : bool := match l with [] => true | c :: r => invb c && all r end) ch
+  end.
+Definition elems_okb (boxes : list box) (t : tree) : bool :=
+  let es := tree_elems t in
+  nat_list_eqb (NatSort.sort (map e_idx es)) (seq 0 (length boxes)) &&
+  forallb (fun e => box_eqb (e_box e) (nth (e_idx e) boxes zero_box)) es.
+Definition set_eqb (a b : list nat) : bool := nat_list_eqb (NatSort.sort a) (NatSort.sort b).
+
+(* The tie between the theorems and the implementation.  The query theorems assume nothing about a tree
+   but the invariant, so the implementation's own (dumped) tree is checked against the invariant and
+   the model's query functions are run ON THAT TREE; the answers must be the implementation's (as
+   sets; the visiting order is not part of the contract, except where a narrowing iterator makes the
+   answer depend on it).  Whether the tree is cell for cell the one the model's `build` produces is
+   deliberately not required: a different octant rule that still satisfies the invariant is not a
+   defect (the model's build is tied to the code by `build_agrees` below, reported separately). *)
+Definition qcorr_set (boxes : list box) (t : tree) (q : query) : bool :=
+  match q with
+  | QContain p res => set_eqb (containing t p) res
+  | QWithin p d res => set_eqb (within t p d) res
+  | QRay o dir lo hi elhit res trav =>
+      let ry := mkray o dir in
+      let r := (dyq lo, dyq hi) in
+      list_eqb Bool.eqb (map (fun b => slab b ry r) boxes) elhit &&
+      set_eqb (ray_hits t ry r) res &&
+      set_eqb (traverse (fun _ r => r) t ry r) trav
+  | _ => qcorr boxes t q
+  end.
+
+(* does the implementation build the very tree the model builds?  (true on the pinned code; part of
+   corr_ok only through the octant-independent checks above) *)
+Definition build_agrees (c : case) : bool :=
+  match c with
+  | COct boxes depth (Some it) _ =>
+      match new_octree depth boxes with Some t => tree_eqb t it | None => false end
+  | _ => true
+  end.
+
 Definition corr_ok (c : case) : bool :=
   match c with
   | COct boxes depth impl_tree qs =>
       match new_octree depth boxes, impl_tree with
-      | Some t, Some it => tree_eqb t it && forallb (qcorr boxes t) qs
+      | Some _, Some it => invb it && elems_okb boxes it && forallb (qcorr_set boxes it) qs
       | None, None => match qs with [] => true | _ => false end
       | _, _ => false
       end
